@@ -31,8 +31,12 @@ PadsOk(r) ==
   /\ Len(r.pads) = Cardinality(exp)
   /\ \A x \in SeqRange(r.pads) : \A s \in exp : s[1] = <<x[1], x[2]>> => ValuesOk(s[2], x[3], PadCal(r.run, s[1]), r.scale)
 
+\* C09: records without the bank bytes (large simulated events) are judged for totality only:
+\* the build returned Ok or Err, every later stage returned, the vertex (if any) is finite
 Judge(r) ==
   IF r.verdict \notin {"ok", "err"} THEN "crash"
+  ELSE IF "vfinite" \in DOMAIN r /\ r.vfinite # 1 THEN "nonfinite-vertex"
+  ELSE IF "banks" \notin DOMAIN r THEN "fine"
   ELSE IF Unspecified(r.run, r.banks) THEN "fine"
   ELSE IF (r.verdict = "err") # Rejected(r.run, r.banks) THEN "verdict"
   ELSE IF r.verdict = "err" THEN "fine"
